@@ -25,7 +25,8 @@ def is_modelled(c):
     if c.kind == "c08":
         return c.fields.get("scheme", [""])[0] == "marlin" and "beta" in c.fields
     if c.kind == "pc":
-        return c.fields.get("scheme", [""])[0] in MODELLED_PC_SCHEMES and "beta" in c.fields
+        sch = c.fields.get("scheme", [""])[0]
+        return (sch in MODELLED_PC_SCHEMES and "beta" in c.fields) or (sch == "hyrax" and "refuse_kind" not in c.meta)
     return False
 
 
@@ -145,6 +146,14 @@ class Engine:
                         diffs.append({"case": c.id, "name": name, "lib": "<no base %s>" % ty[2:], "model": " ".join(mt)[:80]})
                     else:
                         reqs.append(("%s@%s" % (base[0], base[1]), mt))
+                        where.append((c.id, name, lt))
+                elif ty.startswith("L:"):
+                    # formal combinations over a list of elements the library itself published (one token per element)
+                    base = lib.get(c.id, {}).get("in", {}).get(ty[2:])
+                    if not base:
+                        diffs.append({"case": c.id, "name": name, "lib": "<no basis %s>" % ty[2:], "model": " ".join(mt)[:80]})
+                    else:
+                        reqs.append(("%sL@%s" % (base[0], ",".join(base[1:])), mt))
                         where.append((c.id, name, lt))
                 elif comparators and name.split(".")[0] in comparators:
                     if not comparators[name.split(".")[0]](lt, mt):
